@@ -106,6 +106,37 @@ impl Run {
         M::Act: Serialize,
     {
         let rep = bfs(model, seeds, lim);
+        // determinism self-checks (a divergence is a machinery error, never a verdict)
+        if let Some(path) = rep.sample_paths.iter().find(|p| !p.is_empty()) {
+            let run_once = || {
+                let mut ctx = model.make_ctx();
+                let mut s = model.initial(&mut ctx);
+                for a in path {
+                    let mut o = StepOut::default();
+                    match model.step(&mut ctx, &s, a, &mut o) {
+                        Some(ns) => s = ns,
+                        None => break,
+                    }
+                }
+                model.key(&s)
+            };
+            if run_once() != run_once() {
+                eprintln!("MACHINERY-ERROR: replaying one recorded trace twice reached different states ({} / {})", self.prop, name);
+                std::process::exit(2);
+            }
+            self.tag("selfcheck:trace-replayed-twice-identical", 1);
+        }
+        if self.tier == Tier::Thorough && lim.workers > 1 {
+            let small = Limits { depth: lim.depth.min(2), max_states: lim.max_states, max_secs: lim.max_secs, workers: 1 };
+            let r1 = bfs(model, seeds, &small);
+            for (i, l) in r1.levels.iter().enumerate() {
+                if rep.levels.get(i) != Some(l) {
+                    eprintln!("MACHINERY-ERROR: per-level counts differ between 1 and {} workers at level {} ({:?} vs {:?}) ({} / {})", lim.workers, i, l, rep.levels.get(i), self.prop, name);
+                    std::process::exit(2);
+                }
+            }
+            self.tag("selfcheck:1-vs-n-workers-level-counts-equal", 1);
+        }
         eprintln!(
             "[{}] {} : depth {} states {} transitions {} executions {} viol-classes {} {:.1}s{}",
             self.prop,
